@@ -38,6 +38,7 @@ func runC07(c *Ctx) {
 	c.checkSelectedSitesOnly("selected-sites-only")
 	c.checkArgNameOrder("arg-name-order", "distance/dna", "cmd")
 	c.checkEstimatorFormulas("estimator-formula")
+	c.checkPairedLines("paired-lines", "distance/dna", "align")
 }
 
 // ---------------------------------------------------------------------------
